@@ -307,7 +307,8 @@ pub fn run_c12(tier: Tier) -> i32 {
         let n = for_family(&sf, &|p| visit(&ctx, p));
         fams.push(json!({"family": sf.name(), "legal_members": n, "secs": t0.elapsed().as_secs_f64()}));
     }
-    for f in [&castle as &dyn Family, &ep, &promo] {
+    let rights_ep = RightsEp;
+    for f in [&castle as &dyn Family, &ep, &promo, &rights_ep] {
         let t0 = Instant::now();
         let sf = Strided(f, stride);
         let n = for_family(&sf, &|p| visit(&ctx, p));
@@ -926,6 +927,15 @@ pub fn run_c14(tier: Tier) -> i32 {
             let n2 = for_family(&Flipped(f), &|p| visit(&ctx, p));
             fams.push(json!({"family": f.name(), "legal_members": n, "flipped_members": n2, "secs": t0.elapsed().as_secs_f64()}));
         }
+    }
+    // castling rights x pending e.p. x rooks that can reach the same squares
+    {
+        let t0 = Instant::now();
+        let fam = RightsEp;
+        let sf = Strided(&fam, if tier == Tier::Quick { 5 } else { 1 });
+        let n = for_family(&sf, &|p| visit(&ctx, p));
+        let n2 = for_family(&Flipped(&sf), &|p| visit(&ctx, p));
+        fams.push(json!({"family": sf.name(), "legal_members": n, "flipped_members": n2, "secs": t0.elapsed().as_secs_f64()}));
     }
     // three like pieces aiming at one square with an enemy slider around (pins, blocks, checks)
     for kind in [KNIGHT, ROOK, QUEEN, BISHOP] {
